@@ -1,13 +1,32 @@
 // Correspondence harness: executes the same line protocol as the OCaml model driver
-// against the real ruschm library and prints one canonical line per operation.
-use ruschm::error::{ErrorData, SchemeError};
+// (ocaml/driver.ml) against the real ruschm library and prints one canonical line per
+// operation. Lines between two RESETs form a case; every case runs on a fresh thread with a
+// large stack (the syntax table of ruschm is thread-local, so a fresh thread is a fresh
+// world). What the interpreter writes to the process's standard output (display, newline) is
+// captured by redirecting fd 1 into a scratch file; protocol output goes to the original fd 1.
+use ruschm::environment::Environment;
+use ruschm::error::{ErrorData, SchemeError, ToLocated};
 use ruschm::interpreter::error::LogicError;
+use ruschm::interpreter::{Interpreter, LibraryFactory};
 use ruschm::parser::error::SyntaxError;
-use ruschm::values::Number;
-use std::io::{self, BufRead, Write};
+use ruschm::parser::pair::GenericPair;
+use ruschm::parser::{
+    Datum, DatumBody, Lexer, LibraryName, LibraryNameElement, ParameterFormals, Parser, Primitive, TokenData,
+    Transformer,
+};
+use ruschm::values::{Number, Procedure, Value, ValueReference};
+use ruschm::{list, param_fixed};
+use std::cell::RefCell;
+use std::collections::HashMap;
+use std::fs::File;
+use std::io::{self, BufRead, Read, Seek, SeekFrom, Write};
+use std::os::unix::io::{AsRawFd, FromRawFd};
 use std::panic::{catch_unwind, AssertUnwindSafe};
+use std::path::PathBuf;
+use std::rc::Rc;
 
 type Num = Number<f32>;
+type Val = Value<f32>;
 
 fn parse_number(s: &str) -> Num {
     let (k, body) = s.split_at(1);
@@ -130,35 +149,510 @@ fn num_op(op: &str, a: &[Num]) -> String {
     }
 }
 
-fn handle(line: &str) -> String {
-    let mut words = line.split(' ');
-    match words.next().unwrap() {
+fn hex_decode(s: &str) -> Vec<u8> {
+    (0..s.len() / 2).map(|i| u8::from_str_radix(&s[2 * i..2 * i + 2], 16).unwrap()).collect()
+}
+fn hex_str(s: &str) -> String { String::from_utf8(hex_decode(s)).unwrap() }
+fn hex_encode(b: &[u8]) -> String { b.iter().map(|x| format!("{:02x}", x)).collect() }
+fn hexs(s: &str) -> String { hex_encode(s.as_bytes()) }
+
+thread_local! {
+    static TICKS: RefCell<Vec<i32>> = RefCell::new(Vec::new());
+}
+
+// ---------------------------------------------------------------------------------------
+// stdout capture
+// ---------------------------------------------------------------------------------------
+struct Capture {
+    file: File,
+    offset: u64,
+}
+impl Capture {
+    fn take(&mut self) -> Vec<u8> {
+        io::stdout().flush().ok();
+        let mut buf = Vec::new();
+        self.file.seek(SeekFrom::Start(self.offset)).unwrap();
+        self.file.read_to_end(&mut buf).unwrap();
+        self.offset += buf.len() as u64;
+        buf
+    }
+}
+
+// ---------------------------------------------------------------------------------------
+// the world of one case
+// ---------------------------------------------------------------------------------------
+struct World<'a> {
+    insts: HashMap<i64, Interpreter<'a, f32>>,
+    vecs: Vec<ValueReference<Vec<Val>>>,
+    root: PathBuf,
+}
+
+fn show_formals(p: &ParameterFormals) -> String {
+    match p.clone().split() {
+        Ok((fixed, rest)) => match rest {
+            None => format!("({})", fixed.join(" ")),
+            Some(r) => if fixed.is_empty() { r } else { format!("({} . {})", fixed.join(" "), r) },
+        },
+        Err(_) => "(illegal)".to_string(),
+    }
+}
+
+fn show_value(w: &mut World, v: &Val, depth: usize) -> String {
+    if depth > 200 { return "(deep)".to_string(); }
+    match v {
+        Value::Number(n) => show_number(n),
+        Value::Boolean(b) => show_bool(*b),
+        Value::Character(c) => format!("(char {})", *c as u32),
+        Value::String(s) => format!("(str {})", hexs(s)),
+        Value::Symbol(s) => format!("(sym {})", hexs(s)),
+        Value::Procedure(Procedure::User(sp, _)) => format!("(proc user {})", hexs(&show_formals(&sp.0))),
+        Value::Procedure(Procedure::Builtin(b)) => format!("(proc builtin {})", hexs(&b.name)),
+        Value::Vector(r) => {
+            let m = match r { ValueReference::Mutable(_) => "m", ValueReference::Immutable(_) => "l" };
+            if let Some(id) = w.vecs.iter().position(|x| x.ptr_eq(r)) {
+                format!("(vec {} #{})", m, id)
+            } else {
+                let id = w.vecs.len();
+                w.vecs.push(r.clone());
+                let cells: Vec<Val> = r.as_ref().iter().cloned().collect();
+                let shown: Vec<String> = cells.iter().map(|c| show_value(w, c, depth + 1)).collect();
+                format!("(vec {} #{} [{}])", m, id, shown.join(" "))
+            }
+        }
+        Value::Pair(p) => match p.as_ref() {
+            GenericPair::Empty => "()".to_string(),
+            GenericPair::Some(a, b) => {
+                let sa = show_value(w, a, depth + 1);
+                let sb = show_value(w, b, depth + 1);
+                format!("(pair {} {})", sa, sb)
+            }
+        },
+        Value::Transformer(_) => "(transformer)".to_string(),
+        Value::Void => "(void)".to_string(),
+    }
+}
+
+fn show_outcome(w: &mut World, r: &Result<Option<Val>, SchemeError>) -> String {
+    match r {
+        Ok(None) => "(ok none)".to_string(),
+        Ok(Some(v)) => format!("(ok {})", show_value(w, v, 0)),
+        Err(e) => show_err(e),
+    }
+}
+
+fn take_side(cap: &mut Capture) -> String {
+    let t = TICKS.with(|t| {
+        let v: Vec<String> = t.borrow().iter().map(|x| x.to_string()).collect();
+        t.borrow_mut().clear();
+        v.join(",")
+    });
+    let d = ruschm::verif::max_depth();
+    ruschm::verif::reset();
+    let o = cap.take();
+    format!(" t=[{}] d={} o={}", t, d, hex_encode(&o))
+}
+
+fn lname(parts: &[String]) -> LibraryName {
+    LibraryName(parts.iter().map(|p| LibraryNameElement::Identifier(p.clone())).collect())
+}
+
+fn tick_factory<'a>() -> LibraryFactory<'a, f32> {
+    LibraryFactory::Native(
+        lname(&["verif".to_string(), "tick".to_string()]),
+        Box::new(|| {
+            vec![(
+                "tick".to_string(),
+                Value::Procedure(Procedure::new_builtin_pure(
+                    "tick".to_string(),
+                    param_fixed!["id", "value"],
+                    |args| {
+                        let mut it = args.into_iter();
+                        let id = it.next().unwrap();
+                        let v = it.next().unwrap();
+                        match id {
+                            Value::Number(Number::Integer(i)) => {
+                                TICKS.with(|t| t.borrow_mut().push(i));
+                                Ok(v)
+                            }
+                            other => Err(ErrorData::Logic(LogicError::TypeMisMatch(
+                                other.to_string(),
+                                ruschm::values::Type::Integer,
+                            ))
+                            .no_locate()),
+                        }
+                    },
+                )),
+            )]
+        }),
+    )
+}
+
+fn lib4_factory<'a>() -> LibraryFactory<'a, f32> {
+    LibraryFactory::Native(
+        lname(&["verif".to_string(), "lib4".to_string()]),
+        Box::new(|| {
+            vec![
+                ("a".to_string(), Value::Number(Number::Integer(1))),
+                ("b".to_string(), Value::Number(Number::Integer(2))),
+                ("c".to_string(), Value::Number(Number::Integer(3))),
+                ("d".to_string(), Value::Number(Number::Integer(4))),
+            ]
+        }),
+    )
+}
+
+fn show_prim(p: &Primitive) -> String {
+    match p {
+        Primitive::String(s) => format!("(str {})", hexs(s)),
+        Primitive::Character(c) => format!("(char {})", *c as u32),
+        Primitive::Boolean(b) => show_bool(*b),
+        Primitive::Integer(i) => format!("i{}", i),
+        Primitive::Rational(a, b) => format!("q{}/{}", a, b),
+        Primitive::Real(s) => format!("(real {})", hexs(s)),
+    }
+}
+
+fn show_token(t: &TokenData) -> String {
+    match t {
+        TokenData::Identifier(s) => format!("(id {})", hexs(s)),
+        TokenData::Primitive(p) => show_prim(p),
+        TokenData::LeftParen => "LP".into(),
+        TokenData::RightParen => "RP".into(),
+        TokenData::VecConsIntro => "VEC".into(),
+        TokenData::ByteVecConsIntro => "BVEC".into(),
+        TokenData::Quote => "QUOTE".into(),
+        TokenData::Quasiquote => "QUASI".into(),
+        TokenData::Unquote => "UNQ".into(),
+        TokenData::UnquoteSplicing => "UNQS".into(),
+        TokenData::Period => "DOT".into(),
+    }
+}
+
+fn show_loc_suffix(l: Option<[u32; 2]>) -> String {
+    match l { Some([a, b]) => format!("@{}:{}", a, b), None => String::new() }
+}
+
+fn show_datum(d: &Datum) -> String {
+    let body = match &d.data {
+        DatumBody::Primitive(p) => show_prim(p),
+        DatumBody::Symbol(s) => format!("(sym {})", hexs(s)),
+        DatumBody::Pair(p) => match p.as_ref() {
+            GenericPair::Empty => "()".to_string(),
+            GenericPair::Some(a, b) => format!("(pair {} {})", show_datum(a), show_datum(b)),
+        },
+        DatumBody::Vector(v) => format!("(vec [{}])", v.iter().map(show_datum).collect::<Vec<_>>().join(" ")),
+    };
+    format!("{}{}", body, show_loc_suffix(d.location))
+}
+
+fn lex_text(text: &str) -> String {
+    let mut out = Vec::new();
+    for t in Lexer::from_char_stream(text.chars()) {
+        match t {
+            Ok(tok) => out.push(format!("{}{}", show_token(&tok.data), show_loc_suffix(tok.location))),
+            Err(e) => return show_err(&e),
+        }
+    }
+    out.join(" ")
+}
+
+fn read_text(text: &str) -> String {
+    let mut parser = Parser::from_lexer(Lexer::from_char_stream(text.chars()));
+    let mut out = Vec::new();
+    loop {
+        match parser.verif_next_datum() {
+            Ok(Some(d)) => out.push(show_datum(&d)),
+            Ok(None) => break,
+            Err(e) => return show_err(&e),
+        }
+    }
+    out.join(" ")
+}
+
+fn file_path(w: &World, dir: &str, parts: &[String]) -> PathBuf {
+    // a program file is addressed by one component that ends in ".scm"; anything else is the
+    // name of a library, stored at <dir>/<components...>.sld
+    let mut p = w.root.join(dir);
+    if parts.len() == 1 && parts[0].ends_with(".scm") {
+        p.push(&parts[0]);
+        p
+    } else {
+        for c in parts { p.push(c); }
+        let mut s = p.into_os_string();
+        s.push(".sld");
+        PathBuf::from(s)
+    }
+}
+
+fn handle(w: &mut World, cap: &mut Capture, line: &str) -> String {
+    let words: Vec<&str> = line.split(' ').collect();
+    match words[0] {
         "NUM" => {
-            let op = words.next().unwrap();
-            let args: Vec<Num> = words.map(parse_number).collect();
-            num_op(op, &args)
+            let args: Vec<Num> = words[2..].iter().map(|s| parse_number(s)).collect();
+            num_op(words[1], &args)
         }
         "LIT" => {
-            let parts: Vec<&str> = words.next().unwrap().split(',').collect();
+            let parts: Vec<&str> = words[1].split(',').collect();
             let text = format!("{}{}e{}", if parts[0] == "1" { "-" } else { "" }, parts[1], parts[2]);
             show_real(text.parse::<f64>().unwrap() as f32)
         }
+        "NEW" => {
+            let i: i64 = words[1].parse().unwrap();
+            let mut it = Interpreter::<f32>::default();
+            it.register_library_factory(tick_factory());
+            it.register_library_factory(lib4_factory());
+            if words[2] == "std" { it.import_stdlib(); }
+            w.insts.insert(i, it);
+            "ok".to_string()
+        }
+        "EVAL" => {
+            let i: i64 = words[1].parse().unwrap();
+            let text = hex_str(words[2]);
+            let r = w.insts.get_mut(&i).unwrap().eval(text.chars());
+            let o = show_outcome(w, &r);
+            format!("{}{}", o, take_side(cap))
+        }
+        "PROG" => {
+            let i: i64 = words[1].parse().unwrap();
+            let text = hex_str(words[2]);
+            let mut outs = Vec::new();
+            let parser = Parser::from_lexer(Lexer::from_char_stream(text.chars()));
+            for stmt in parser {
+                let r = match stmt {
+                    Ok(s) => w.insts.get_mut(&i).unwrap().eval_root_ast(&s),
+                    Err(e) => Err(e),
+                };
+                let stop = r.is_err();
+                outs.push(show_outcome(w, &r));
+                if stop { break; }
+            }
+            format!("{}{}", outs.join(";"), take_side(cap))
+        }
+        "EVALD" => {
+            let i: i64 = words[1].parse().unwrap();
+            let text = hex_str(words[2]);
+            let r = w.insts.get_mut(&i).unwrap().eval(text.chars());
+            let o = match &r {
+                Ok(Some(v)) => format!("(disp {})", hexs(&format!("{}", v))),
+                Ok(None) => "(disp-none)".to_string(),
+                Err(e) => show_err(e),
+            };
+            format!("{}{}", o, take_side(cap))
+        }
+        "DEFNUM" => {
+            let i: i64 = words[1].parse().unwrap();
+            let name = hex_str(words[2]);
+            w.insts.get(&i).unwrap().env.define(name, Value::Number(parse_number(words[3])));
+            "ok".to_string()
+        }
+        "ENV" => {
+            let i: i64 = words[1].parse().unwrap();
+            let env: Rc<Environment<f32>> = w.insts.get(&i).unwrap().env.clone();
+            let mut items: Vec<(String, Val)> = Vec::new();
+            {
+                let mut defs = env.iter_local_definitions();
+                while let Some((k, v)) = defs.next() {
+                    items.push((k.clone(), v.clone()));
+                }
+            }
+            items.sort_by(|a, b| a.0.as_bytes().cmp(b.0.as_bytes()));
+            items
+                .iter()
+                .map(|(k, v)| {
+                    let sv = match v {
+                        Value::Procedure(_) => "(proc)".to_string(),
+                        other => show_value(w, other, 0),
+                    };
+                    format!("{}={}", hexs(k), sv)
+                })
+                .collect::<Vec<_>>()
+                .join(" ")
+        }
+        "LEX" => lex_text(&hex_str(words[1])),
+        "READ" => read_text(&hex_str(words[1])),
+        "FILE" => {
+            let dir = hex_str(words[1]);
+            let parts: Vec<String> = words[2].split(',').map(hex_str).collect();
+            let path = file_path(w, &dir, &parts);
+            std::fs::create_dir_all(path.parent().unwrap()).unwrap();
+            match words[3] {
+                "BAD" => std::fs::write(&path, [0x28u8, 0xff, 0xfe, 0x29, 0x0a]).unwrap(),
+                "DIR" => std::fs::create_dir_all(&path).unwrap(),
+                h => std::fs::write(&path, hex_decode(h)).unwrap(),
+            }
+            "ok".to_string()
+        }
+        "RUNFILE" => {
+            let i: i64 = words[1].parse().unwrap();
+            let dir = hex_str(words[2]);
+            let file = hex_str(words[3]);
+            let path = file_path(w, &dir, &[file]);
+            let it = w.insts.get_mut(&i).unwrap();
+            it.program_directory = path.parent().map(|p| p.to_owned());
+            let mut outs = Vec::new();
+            let fin: Result<Option<Val>, SchemeError>;
+            match ruschm::io::file_char_stream(&path) {
+                Err(e) => {
+                    let e: SchemeError = e.into();
+                    outs.push(show_err(&e));
+                    fin = Err(e);
+                }
+                Ok(chars) => {
+                    let parser = Parser::from_lexer(Lexer::from_char_stream(chars));
+                    let mut last: Result<Option<Val>, SchemeError> = Ok(None);
+                    for stmt in parser {
+                        let r = match stmt {
+                            Ok(s) => w.insts.get_mut(&i).unwrap().eval_root_ast(&s),
+                            Err(e) => Err(e),
+                        };
+                        let stop = r.is_err();
+                        outs.push(show_outcome(w, &r));
+                        last = r;
+                        if stop { break; }
+                    }
+                    fin = last;
+                }
+            }
+            let f = show_outcome(w, &fin);
+            format!("{}|{}{}", outs.join(";"), f, take_side(cap))
+        }
+        "REGSRC" => {
+            let i: i64 = words[1].parse().unwrap();
+            let parts: Vec<String> = words[2].split(',').map(hex_str).collect();
+            let name = lname(&parts);
+            let text = hex_str(words[3]);
+            match LibraryFactory::from_char_stream(&name, text.chars()) {
+                Ok(f) => {
+                    w.insts.get_mut(&i).unwrap().register_library_factory(f);
+                    "ok".to_string()
+                }
+                Err(e) => show_err(&e),
+            }
+        }
+        "EXPAND" => {
+            // EXPAND i keyword use-text: the transformer bound to keyword in instance i's root
+            // frame applied to the use with its first element removed
+            let i: i64 = words[1].parse().unwrap();
+            let kw = hex_str(words[2]);
+            let text = hex_str(words[3]);
+            let tr: Option<Transformer> = match w.insts.get(&i).unwrap().env.get(&kw) {
+                Some(v) => match &*v { Value::Transformer(t) => Some(t.clone()), _ => None },
+                None => None,
+            };
+            match tr {
+                None => "(no-transformer)".to_string(),
+                Some(t) => {
+                    let mut parser = Parser::from_lexer(Lexer::from_char_stream(text.chars()));
+                    match parser.verif_next_datum() {
+                        Ok(Some(d)) => {
+                            let loc = d.location;
+                            match d.data {
+                                DatumBody::Pair(mut p) => match p.pop_proper() {
+                                    Ok(Some(_)) => match t.transform(&kw, DatumBody::Pair(p).locate(loc)) {
+                                        Ok(out) => show_datum(&out),
+                                        Err(e) => show_err(&e),
+                                    },
+                                    _ => "(bad-use)".to_string(),
+                                },
+                                _ => "(bad-use)".to_string(),
+                            }
+                        }
+                        Ok(None) => "(bad-use)".to_string(),
+                        Err(e) => show_err(&e),
+                    }
+                }
+            }
+        }
+        "PRINTF" => {
+            let x = f32::from_bits(u32::from_str_radix(words[1], 16).unwrap());
+            format!("(disp {})", hexs(&format!("{}", Number::<f32>::Real(x))))
+        }
+        "BRACKET" => show_bool(ruschm::repl::verif_check_bracket_closed(&hex_str(words[1]))),
         other => panic!("bad line {}", other),
     }
 }
 
+fn run_case(lines: Vec<String>, cap_path: PathBuf, scratch: PathBuf, case_no: usize) -> Vec<String> {
+    let handle_thread = std::thread::Builder::new()
+        .stack_size(1 << 30)
+        .spawn(move || {
+            let root = scratch.join(format!("case{}", case_no));
+            let cwd = root.join("cwd");
+            std::fs::create_dir_all(&cwd).unwrap();
+            std::env::set_current_dir(&cwd).unwrap();
+            let file = File::open(&cap_path).unwrap();
+            let offset = file.metadata().unwrap().len();
+            let mut cap = Capture { file, offset };
+            io::stdout().flush().ok();
+            cap.take();
+            ruschm::verif::reset();
+            TICKS.with(|t| t.borrow_mut().clear());
+            let mut w = World { insts: HashMap::new(), vecs: Vec::new(), root: root.clone() };
+            let mut out = Vec::new();
+            for line in &lines {
+                let r = catch_unwind(AssertUnwindSafe(|| handle(&mut w, &mut cap, line)));
+                match r {
+                    Ok(s) => out.push(s),
+                    Err(_) => {
+                        ruschm::verif::reset();
+                        TICKS.with(|t| t.borrow_mut().clear());
+                        cap.take();
+                        out.push("(panic)".to_string())
+                    }
+                }
+            }
+            drop(w);
+            std::env::set_current_dir("/").ok();
+            std::fs::remove_dir_all(&root).ok();
+            out
+        })
+        .unwrap();
+    handle_thread.join().unwrap()
+}
+
 fn main() {
     std::panic::set_hook(Box::new(|_| {}));
+    // redirect fd 1 into a capture file; protocol output goes to the saved descriptor
+    let scratch_base = std::env::var("VHARNESS_SCRATCH").unwrap_or_else(|_| "/verif/.cache/scratch".to_string());
+    let scratch = PathBuf::from(scratch_base).join(format!("h{}", std::process::id()));
+    std::fs::create_dir_all(&scratch).unwrap();
+    let cap_path = scratch.join("stdout.capture");
+    let cap_file = File::create(&cap_path).unwrap();
+    let saved = unsafe { libc::dup(1) };
+    unsafe { libc::dup2(cap_file.as_raw_fd(), 1) };
+    let mut out = unsafe { File::from_raw_fd(saved) };
+
     let stdin = io::stdin();
-    let stdout = io::stdout();
-    let mut out = stdout.lock();
+    let mut case: Vec<String> = Vec::new();
+    let mut case_no = 0usize;
+    let mut pending_reset = false;
+    let mut flush_case = |case: &mut Vec<String>, pending_reset: bool, out: &mut File, case_no: &mut usize| {
+        if pending_reset { writeln!(out, "ok").unwrap(); }
+        if !case.is_empty() {
+            let lines = std::mem::take(case);
+            *case_no += 1;
+            for l in run_case(lines, cap_path.clone(), scratch.clone(), *case_no) {
+                writeln!(out, "{}", l).unwrap();
+            }
+        }
+        out.flush().unwrap();
+    };
     for line in stdin.lock().lines() {
         let line = line.unwrap();
         if line.is_empty() { continue; }
-        let r = catch_unwind(AssertUnwindSafe(|| handle(&line)));
-        match r {
-            Ok(s) => writeln!(out, "{}", s).unwrap(),
-            Err(_) => writeln!(out, "(panic)").unwrap(),
+        if line == "RESET" {
+            flush_case(&mut case, pending_reset, &mut out, &mut case_no);
+            pending_reset = true;
+        } else {
+            if case.is_empty() && pending_reset {
+                // the "ok" of RESET is printed before the case's own lines
+                writeln!(out, "ok").unwrap();
+                pending_reset = false;
+            }
+            case.push(line);
         }
     }
+    flush_case(&mut case, pending_reset, &mut out, &mut case_no);
+    drop(out);
+    std::fs::remove_dir_all(&scratch).ok();
 }
